@@ -66,6 +66,14 @@ class UniverseLaws(base.BaseObject):
         #: edge types allowed
         self._edge_whitelist = edge_whitelist
         try:
+            if edge_whitelist is not None:
+                # keep a copy (of both levels), not the caller's dict: these
+                # laws are read-only once made, whatever becomes of the
+                # dictionary they were made from
+                self._edge_whitelist = {
+                    t: dict(linkset.items())
+                    for t, linkset in edge_whitelist.items()
+                }
             self.edge_whitelist
         except (ValueError, AttributeError) as exc:
             # re-raise, but with a more clear message of what's happening
